@@ -1059,7 +1059,7 @@ def oracle_index_file(ctx, lp, frames, recs, want):
         return False
     for fa in fas:
         k = [ft['name'][2] for ft in lp].index(fa.get('I').encode('ascii'))
-        w, (mno, mpos, mx) = want[k], mem[fa.get('I').encode('ascii')]
+        w, (mno, mpos, mx) = want[k], mem.get(fa.get('I').encode('ascii'), ([], [], []))   # declared, no IFLR: nothing indexed
         iflr = fa.find('IFLR')
         bad = None
         try:
